@@ -75,15 +75,16 @@ def check_table(df, sig, o, ref, w):
 
 
 class Pipeline:
-    def __init__(self, fit_too=True):
+    def __init__(self, fit_too=True, min_peaks=3):
         self.fit_too = fit_too
+        self.min_peaks = min_peaks
 
     def __call__(self, case):
         letters, devs = case[:-1], tuple(case[-1])
         w = ''.join(letters)
         o = S.resolve(devs)
         sig = S.make_signal(w, o)
-        ok, why, ref = precondition(sig, o)
+        ok, why, ref = precondition(sig, o, min_peaks=self.min_peaks)
         if not ok:
             return SKIP(why)
         sgn = {'centre': o['center_extrema'], 'method': o['burst_method']}
@@ -171,6 +172,10 @@ def spaces(tier, seed):
         out.append(ProductSpace('W(3,7)xlong', S.word_dims(al3, 7) + [longs], ev,
                                 describe='7-letter words x the deviations that need longer signals (43-tap filter, boundary 12)',
                                 bounds={'letters': al3, 'option_sets': len(longs)}))
+        shorts = [('b12',), ('b12', 'trough'), ('b12', 'amp'), ('b12', 'amp', 'trough')]
+        out.append(ProductSpace('W(4,5)xone-row', S.word_dims(S.alphabet(4), 5) + [shorts], Pipeline(min_peaks=2),
+                                describe='5-letter words with boundary 12: recordings that hold exactly ONE or two complete cycles '
+                                         '(tables of one / two rows)', bounds={'letters': S.alphabet(4), 'option_sets': len(shorts)}))
     if tier != 'quick':
         # thorough = everything above + larger word sets and deeper option deviations
         al = S.alphabet(8, seed, extra=0)
